@@ -76,7 +76,7 @@ class Select(Factory, Container):
         return out.specialize()
 
     @staticmethod
-    def ing(quantity, cut=Count()):
+    def ing(quantity, cut=None):
         """Synonym for ``__init__``."""
         return Select(quantity, cut)
 
@@ -88,18 +88,21 @@ class Select(Factory, Container):
             return getattr(self.__dict__["cut"], attr)
         return self.__dict__[attr]
 
-    def __init__(self, quantity=identity, cut=Count()):
+    def __init__(self, quantity=identity, cut=None):
         """Create a Select that is capable of being filled and added.
 
         Parameters:
             quantity (function returning bool or float): computes the quantity of interest from the data and interprets
                 it as a selection (multiplicative factor on weight).
             cut (:doc:`Container <histogrammar.defs.Container>`): will only be filled with data that pass the cut,
-                and which are weighted by the cut.
+                and which are weighted by the cut; a new Count by default.
 
         Other Parameters:
             entries (float): the number of entries, initially 0.0.
         """
+        if cut is None:
+            # the cut is stored and filled as it is, so the default must be a new Count for every Select
+            cut = Count()
         if not isinstance(cut, Container):
             raise TypeError(f"cut ({cut}) must be a Container")
         self.entries = 0.0
